@@ -109,8 +109,11 @@ _e(WS, "assert:Overflow:Add", "{Iterator::sum(Iterator::map([]::iter(_),closure{
    "idx advances by the byte length of the words consumed so far, <= line.len()")
 
 _e("crate::wrap_algorithms::WrapAlgorithm::wrap", "call:Result::unwrap",
-   "crate::wrap_algorithms::optimal_fit::wrap_optimal_fit($2,Iterator::collect(Iterator::map(_,_)),_?OptimalFit.0)", ["C04.R3"],
-   "OverflowError is unreachable for usize-valued widths and penalties (MAG)")
+   "crate::wrap_algorithms::optimal_fit::wrap_optimal_fit($2,Iterator::collect(Iterator::map(_,_)),_?OptimalFit.0)", ["C04.R3", "DISPATCH"],
+   "OverflowError is unreachable for usize-valued widths and penalties (MAG); DISPATCH: the widths are the f64 image of the usize list")
+_e("crate::wrap_algorithms::WrapAlgorithm::wrap", "call:Result::unwrap",
+   "crate::wrap_algorithms::optimal_fit::wrap_optimal_fit($2,phi:Vec,_?OptimalFit.0)", ["C04.R3", "DISPATCH"],
+   "same, with the f64 widths collected by an explicit loop (DISPATCH decides that the Vec is the f64 image of the usize list)")
 
 LN = "crate::wrap_algorithms::optimal_fit::LineNumbers::get"
 _e(LN, "assert:Overflow:Add", "{$2} ; {k}", ["A-smawk", "C03.R2"], "i <= fragments.len() <= isize::MAX at every call site (the closure asks for L(i): C03.R2)")
